@@ -1,5 +1,5 @@
 // govc:pkg .
-// govc:bound CountingWindow(N) for N in 1..3 (1..5 with GOVC_BOUND=thorough) x 3 random feeds (12 thorough) of 30 rows (80 thorough) over 6 keys: two strings (one holding '|'), two integers, and the NULL key written both as an explicit nil and as a missing column; the feed is paced (at most 4 results outstanding) so that no overflow drop occurs
+// govc:bound CountingWindow(N) for N in 1..3 (1..5 with GOVC_BOUND=thorough) x 3 random feeds (12 thorough) of 30 rows (80 thorough) over 6 keys: two strings (one holding '|'), two integers (one of them also written as text of the same spelling), and the NULL key written both as an explicit nil and as a missing column; the feed is paced (at most 4 results outstanding) so that no overflow drop occurs
 // Bounded stand-in (NOT a proof) for the path from the counting window to the delivered result, which crosses the
 // group aggregator (reflection based, outside the contracts): for every key the i-th delivered result aggregates exactly
 // that key's rows (i-1)*N+1 .. i*N in arrival order, one result per delivery, nothing for the trailing remainder, no row
@@ -19,7 +19,10 @@ func govcCountKeyName(v any, present bool) string {
 	if !present || v == nil {
 		return "NULL"
 	}
-	return fmt.Sprintf("%T:%v", v, v)
+	// a text value and a number of the same spelling are one counting key: the window and the aggregator both spell them
+	// alike (a key column of mixed types is outside the property's quantifier; what is checked for that pair is only that the
+	// two layers agree, i.e. a batch of N rows still gives one result of N rows)
+	return fmt.Sprintf("%v", v)
 }
 
 func TestGovcBounded_counting_batches(t *testing.T) {
@@ -31,7 +34,7 @@ func TestGovcBounded_counting_batches(t *testing.T) {
 		present bool
 		v       any
 	}
-	pool := []kv{{true, "a"}, {true, "b|c"}, {true, 7}, {true, 8}, {true, nil}, {false, nil}}
+	pool := []kv{{true, "a"}, {true, "b|c"}, {true, 7}, {true, 8}, {true, nil}, {false, nil}, {true, "7"}}
 	cases, fails := 0, 0
 	for n := 1; n <= maxN; n++ {
 		for f := 0; f < feeds; f++ {
